@@ -251,19 +251,22 @@ class _AuthMiddleware:
     guessed at from its message text.
     """
 
-    __slots__ = ("_authenticate", "_exempt_prefixes", "_on_auth_failure", "_www_authenticate")
+    __slots__ = ("_authenticate", "_exempt_paths", "_on_auth_failure", "_www_authenticate")
 
     def __init__(
         self,
         authenticate: Callable[[falcon.Request], AuthContext] | None,
         www_authenticate: str | None = None,
         on_auth_failure: Callable[[str | None, str], None] | None = None,
-        exempt_prefixes: tuple[str, ...] = (),
+        exempt_paths: Iterable[str] = (),
     ) -> None:
         self._authenticate = authenticate
         self._www_authenticate = www_authenticate
         self._on_auth_failure = on_auth_failure
-        self._exempt_prefixes = exempt_prefixes
+        # Exact paths, never prefixes: ``{prefix}/{method}`` is a route, so a
+        # prefix test on ``{prefix}/health`` would also exempt RPC methods
+        # named ``healthz`` / ``health_status`` and ``{prefix}/health/init``.
+        self._exempt_paths = frozenset(exempt_paths)
 
     def process_request(self, req: falcon.Request, resp: falcon.Response) -> None:
         """Authenticate (if configured) and populate the transport contextvar.
@@ -283,7 +286,7 @@ class _AuthMiddleware:
         exempt = (
             req.method == "OPTIONS"
             or req.path.startswith("/.well-known/")
-            or any(req.path.startswith(pfx) for pfx in self._exempt_prefixes)
+            or req.path in self._exempt_paths
         )
         if self._authenticate is None or exempt:
             tc = _TransportContext(auth=_ANONYMOUS, transport_metadata=transport_metadata)
